@@ -418,6 +418,21 @@ func checkNoReregister(r *Result) {
 			r.check(len(bad) == 0, "NO-REREGISTER", "(x/registry/keeper.msgServer).RegisterSpec # SetDataSpec only when the spec does not exist", P.Pos(cs.Pos()), fmt.Sprintf("valuations: %v", statesStr(ps, cs.Instr)))
 		}
 	}
+	// the descriptors of two loads of msg.QueryType are equal even if the field is assigned in between:
+	// the handler must not rewrite the field it tests and then uses as the key
+	{
+		var rewrites []string
+		for _, b := range rs.Blocks {
+			for _, in := range b.Instrs {
+				if st, ok := in.(*ssa.Store); ok {
+					if fa, ok := st.Addr.(*ssa.FieldAddr); ok && fieldName(fa.X.Type(), fa.Field) == "x/registry/types.MsgRegisterSpec.QueryType" {
+						rewrites = append(rewrites, P.Pos(st.Pos()))
+					}
+				}
+			}
+		}
+		r.check(len(rewrites) == 0, "NO-REREGISTER", "(x/registry/keeper.msgServer).RegisterSpec # the query type is not rewritten between the existence test and the write", P.Pos(rs.Pos()), fmt.Sprintf("assignments to msg.QueryType: %v", rewrites))
+	}
 	r.check(hasKey != "" && hasKey == setKey, "NO-REREGISTER", "(x/registry/keeper.msgServer).RegisterSpec # existence test and write use the same query type value", P.Pos(rs.Pos()), "tested: "+clip(hasKey, 100)+" ; written: "+clip(setKey, 100))
 	// key normalisation of the three keeper accessors, as a function of their query-type parameter
 	norm := map[string]string{}
